@@ -131,7 +131,7 @@ def _broker(runs):
 PROPS['C02'] = dict(theorems=['acked_implies_stored', 'nothing_skipped', 'stored_entry_delivered', 'delivered_only_to_recipients'],
     level_text="Theorems (node model): the acknowledgement is emitted only after every destination log accepted the message; the log consumer hands every stored entry, offset 0 included, to the writer; a stored entry is written with topic and payload intact to exactly the recipients in the registry. Tied to the Go code by end-to-end scripts on a real node with a real message log (publishers, subscribers, QoS mix, retained clears, a subscriber whose writes fail), compared step by step with the model. Segment rolls and truncation are covered by C15's consumer model and the thorough tier's 520-publish runs.",
     level_note=_E2E_NOTE,
-    families=[_broker([('pipeline', 40, 400)]), dict(name='crash', corr='Consumer', runs=[('edges', 16, 160)], par=8)], rule='pipeline: 1-3 publishers and subscribers, 1-12 publishes (QoS mix) from the very first log entry on; thorough: every 8th case 520 publishes (segment roll).')
+    families=[_broker([('pipeline', 40, 400)]), dict(name='crash', corr='Consumer', runs=[('edges', 16, 160)], par=8)], rule='pipeline: 1-3 publishers and subscribers, 1-12 publishes (QoS mix) from the very first log entry on; thorough: every 41st case 520 publishes (segment roll).')
 PROPS['C03'] = dict(theorems=['qos1_retransmit', 'qos2_publish_phase', 'qos2_pubrec_then_pubrel', 'qos2_pubrel_phase', 'completion_frees', 'wrong_ack_harmless', 'retransmitted_every_sweep', 'ended_session_frees_identifier'],
     level_text='Theorems (node model): an expired QoS 1 PUBLISH / QoS 2 PUBLISH / PUBREL of a live session is written again with the same identifier and re-armed; PUBREC moves a QoS 2 delivery to its PUBREL phase; the completing acknowledgement, or expiry after the session ended, sends nothing and returns the identifier to the pool; an acknowledgement of the wrong type or for an unknown identifier changes nothing. Over histories (Proofs/RetransmitFacts.v): in every reachable cluster state a sweep re-sends every pending delivery of a registered session with the same packet and leaves it pending under the same key and tag, and for an entry of a vanished session it leaves nothing holding the identifier and the pool has it back. Tied to the Go writer and in-flight queue by end-to-end scripts (acknowledge / stay silent for sweeps / wrong type / unknown identifier / session end, interleaved over 1-3 sessions) compared step by step, identifiers as per-step multisets.',
     level_note=_E2E_NOTE,
@@ -140,8 +140,8 @@ PROPS['C05'] = dict(theorems=['stored_iff_reported_ok', 'ack_after_store', 'qos2
     level_text='Theorems (node model): Distribute reports success iff no local append and no remote write failed, and then the message is in the log of every destination; the worker writes PUBACK/PUBCOMP only then; a QoS 2 PUBLISH alone stores nothing; a PUBREL without a pending handshake (repeated, unknown, timed out) forwards nothing. Tied to the Go code by two-node scripts with injected log and network failures, repeated and unknown identifiers, a second session with the same client id.',
     level_note=_E2E_NOTE,
     families=[_broker([('inbound', 48, 600)])], rule='inbound: 2 nodes, PUBLISH QoS 0/1/2 with fresh and repeated identifiers, PUBREL (repeated, unknown), sweeps, injected local-log and remote-node failures.')
-PROPS['C11'] = dict(theorems=['ends_only_for_cause', 'end_leaves_registry', 'end_closes_connection'],
-    level_text="Theorems (node model): a connection is closed only in a step whose event is a cause (CONNECT that cannot be set up, rejected packet, PINGREQ of a displaced session, DISCONNECT, loss, read deadline) - never by subscribes, acknowledgements, sweeps, gossip, peer failures, injected faults or the delivery pipeline; ending a session removes it from the registry and closes its connection. The removal of records and subscriptions from every node's view and the armed 2 x keep-alive deadline are validated end-to-end (listings of every node after gossip; deadline in force after CONNACK and after every packet) on 1-3 nodes, including peer failure.",
+PROPS['C11'] = dict(theorems=['ends_only_for_cause', 'end_leaves_registry', 'end_closes_connection', 'end_removes_every_subscription', 'end_removes_the_record', 'end_is_conveyed_to_every_node'],
+    level_text="Theorems (node model): a connection is closed only in a step whose event is a cause (CONNECT that cannot be set up, rejected packet, PINGREQ of a displaced session, DISCONNECT, loss, read deadline) - never by subscribes, acknowledgements, sweeps, gossip, peer failures, injected faults or the delivery pipeline; ending a session removes it from the registry and closes its connection; every subscription the session remembers is tombstoned on its host (no ByPattern result and no listing shows it any more) and, when the identifier still resolves to the session, so is its record (premise: node clock above the replaced stamps); what shutdownSession does to the replicated state is the operation sequence end_ops, its queued broadcasts are exactly those of that sequence, and a node that agreed before and merges them agrees afterwards (composition with C09). The armed 2 x keep-alive deadline and the views of every node after gossip are also validated end-to-end (listings of every node after gossip; deadline in force after CONNACK and after every packet) on 1-3 nodes, including peer failure.",
     level_note=_E2E_NOTE,
     families=[_broker([('lifecycle', 48, 600), ('takeover', 24, 300), ('peerfail', 8, 64)])], rule='lifecycle: 1-2 nodes, sessions with subscribe/unsubscribe/ping/publish ending by DISCONNECT, EOF, read deadline, protocol error or staying connected; refused CONNECTs; listings at the end.')
 PROPS['C12'] = dict(theorems=['teardown_spares_new', 'teardown_keeps_records', 'new_session_established', 'every_node_resolves_new', 'displaced_stops_being_served', 'live_session_is_served'],
